@@ -1,12 +1,13 @@
 (** * The constants of the Go source that the model has to agree with (inventory regenerated on every run in Gen/Consts.v
     by tools/gen_consts.py): the names the request decoder and the model dispatch on, and every non-zero floating-point literal
     of the non-test code. A numeric constant of the source is tied to the *definition* the model uses, in both instances
-    (NumQc: the exact decimal value; NumF: the binary64 the Go compiler rounds the literal to, compared bit by bit).
+    (NumQc here: the exact decimal value; NumF in Proofs/ConstSitesF.v: the binary64 the Go compiler rounds the literal to,
+    compared bit by bit - kept apart so that Properties/*.v do not load the floating-point library).
     Matching is by package directory and value, so renaming an identifier or a function, or moving code between the files
     of a package, changes nothing; changing a value, or writing a new non-zero literal the model does not know, breaks
     [consts_agree] (Properties/C03 C04 C05 C11 C19 import it). *)
-From Coq Require Import List String Bool ZArith QArith Qcanon Floats.
-From RDM Require Import Base.Num Base.NumF Base.NumQc Gen.Consts.
+From Coq Require Import List String Bool ZArith QArith Qcanon.
+From RDM Require Import Base.Num Base.NumQc Gen.Consts.
 Import ListNotations.
 Local Open Scope string_scope.
 
@@ -61,8 +62,8 @@ Definition expected_names : list (string * string) := [
 ].
 
 Inductive role :=
-| RModel (what : string) (q : Qc) (f : float)    (* a constant of class Num: its value in NumQc and in NumF *)
-| RDecoder (what : string) (q : Qc) (f : float)  (* a default the decoder of the requests fills in (vlib/emit.py), not a constant of the model *)
+| RModel (what : string) (q : Qc)    (* a constant of class Num: its value in NumQc *)
+| RDecoder (what : string) (q : Qc)  (* a default the decoder of the requests fills in (vlib/emit.py), not a constant of the model *)
 | RUnit                                          (* 1.0 / -1.0 used as a sign: [none], [nopp none] in the model *)
 | RNotReached.                                   (* test helpers, not reachable from MakeDecision *)
 
@@ -70,41 +71,41 @@ Definition qc_of (n d : Z) : Qc := Q2Qc (Qmake n (Z.to_pos d)).
 
 (* package directory, role *)
 Definition classified_floats : list (string * role) := [
-  ("logic/biases/anchoring", RModel "_minAllowedWeight = c_001" (c_001 (Num := NumQc)) (c_001 (Num := NumF)));
-  ("logic/biases/criteria-mixing", RDecoder "default mixingRatio" (qc_of 1 2) 0.5%float);
-  ("logic/biases/fatigue", RModel "sign draw >= 0.5 = c_half" (c_half (Num := NumQc)) (c_half (Num := NumF)));
+  ("logic/biases/anchoring", RModel "_minAllowedWeight = c_001" (c_001 (Num := NumQc)));
+  ("logic/biases/criteria-mixing", RDecoder "default mixingRatio" (qc_of 1 2));
+  ("logic/biases/fatigue", RModel "sign draw >= 0.5 = c_half" (c_half (Num := NumQc)));
   ("logic/biases/fatigue", RUnit);
-  ("logic/limited-rationality/aspect-elimination", RModel "random criteria order draw < 0.5 = c_half" (c_half (Num := NumQc)) (c_half (Num := NumF)));
-  ("logic/limited-rationality/majority", RModel "random winner draw < 0.5 = c_half" (c_half (Num := NumQc)) (c_half (Num := NumF)));
-  ("logic/limited-rationality/majority", RModel "eps = c_eps6" (c_eps6 (Num := NumQc)) (c_eps6 (Num := NumF)));
-  ("logic/preference-func/choquet", RModel "tie of criteria values = c_eps5" (c_eps5 (Num := NumQc)) (c_eps5 (Num := NumF)));
-  ("logic/preference-func/electreIII", RModel "DefaultDistillationFunc.A = c_dist_a" (c_dist_a (Num := NumQc)) (c_dist_a (Num := NumF)));
-  ("logic/preference-func/electreIII", RModel "DefaultDistillationFunc.B = c_dist_b" (c_dist_b (Num := NumQc)) (c_dist_b (Num := NumF)));
-  ("model", RModel "roundPrecision (inside nround8)" (qc_of 100000000 1) 1e8%float);
-  ("model/criteria-bounding", RDecoder "default allowedValuesRangeScaling" (qc_of (-1) 1) (-1)%float);
+  ("logic/limited-rationality/aspect-elimination", RModel "random criteria order draw < 0.5 = c_half" (c_half (Num := NumQc)));
+  ("logic/limited-rationality/majority", RModel "random winner draw < 0.5 = c_half" (c_half (Num := NumQc)));
+  ("logic/limited-rationality/majority", RModel "eps = c_eps6" (c_eps6 (Num := NumQc)));
+  ("logic/preference-func/choquet", RModel "tie of criteria values = c_eps5" (c_eps5 (Num := NumQc)));
+  ("logic/preference-func/electreIII", RModel "DefaultDistillationFunc.A = c_dist_a" (c_dist_a (Num := NumQc)));
+  ("logic/preference-func/electreIII", RModel "DefaultDistillationFunc.B = c_dist_b" (c_dist_b (Num := NumQc)));
+  ("model", RModel "roundPrecision (inside nround8)" (qc_of 100000000 1));
+  ("model/criteria-bounding", RDecoder "default allowedValuesRangeScaling" (qc_of (-1) 1));
   ("testUtils", RNotReached);
   ("utils", RNotReached)
 ].
 
-Definition value_matches (q : Qc) (f : float) (site : string * string * string * (Z * Z) * float) : bool :=
-  let '(_, _, _, (n, d), g) := site in (0 <? d)%Z && Qc_eq_bool (qc_of n d) q && f_same g f.
+Definition value_matches (q : Qc) (site : string * string * string * (Z * Z)) : bool :=
+  let '(_, _, _, (n, d)) := site in (0 <? d)%Z && Qc_eq_bool (qc_of n d) q.
 
-Definition explains (r : role) (site : string * string * string * (Z * Z) * float) : bool :=
+Definition explains (r : role) (site : string * string * string * (Z * Z)) : bool :=
   match r with
-  | RModel _ q f | RDecoder _ q f => value_matches q f site
-  | RUnit => value_matches (qc_of 1 1) 1%float site || value_matches (qc_of (-1) 1) (-1)%float site
+  | RModel _ q | RDecoder _ q => value_matches q site
+  | RUnit => value_matches (qc_of 1 1) site || value_matches (qc_of (-1) 1) site
   | RNotReached => true
   end.
 
-Definition dir_of (site : string * string * string * (Z * Z) * float) : string := let '(d, _, _, _, _) := site in d.
+Definition dir_of (site : string * string * string * (Z * Z)) : string := let '(d, _, _, _) := site in d.
 
 (* every literal of the source is one the classification explains ... *)
-Definition unexplained_literals : list (string * string * string * (Z * Z) * float) :=
+Definition unexplained_literals : list (string * string * string * (Z * Z)) :=
   filter (fun s => negb (existsb (fun c => String.eqb (fst c) (dir_of s) && explains (snd c) s) classified_floats)) go_float_literals.
 
 (* ... and every constant the model relies on is still written in the source, in its package, with the model's value *)
-Definition needs_site (r : role) : bool := match r with RModel _ _ _ | RDecoder _ _ _ => true | _ => false end.
-Definition what_of (r : role) : string := match r with RModel w _ _ | RDecoder w _ _ => w | RUnit => "unit" | RNotReached => "not reached" end.
+Definition needs_site (r : role) : bool := match r with RModel _ _ | RDecoder _ _ => true | _ => false end.
+Definition what_of (r : role) : string := match r with RModel w _ | RDecoder w _ => w | RUnit => "unit" | RNotReached => "not reached" end.
 Definition lost_constants : list (string * string) :=
   map (fun c => (fst c, what_of (snd c)))
       (filter (fun c => needs_site (snd c) && negb (existsb (fun s => String.eqb (fst c) (dir_of s) && explains (snd c) s) go_float_literals))
@@ -122,9 +123,7 @@ Definition consts_disagreement := (unexplained_literals, lost_constants, lost_na
 (* the obligation [consts_agree = true] over the regenerated inventory is Proofs/ConstAgree.v, kept apart so that these
    definitions still compile - and [consts_disagreement] can be printed - when it fails *)
 
-(** the rounding helper of the model multiplies and divides by the classified roundPrecision *)
-Lemma round8_uses_precision_F (v : float) : nround8 (Num := NumF) v = (f_round (v * 1e8) / 1e8)%float.
-Proof. reflexivity. Qed.
+(** the rounding helper of the model multiplies and divides by the classified roundPrecision (binary64: Proofs/ConstSitesF.v) *)
 Lemma round8_uses_precision_Qc (x : Qc) :
   nround8 (Num := NumQc) x = Q2Qc (inject_Z (q_round_half_away (this x * inject_Z 100000000)) / inject_Z 100000000).
 Proof. reflexivity. Qed.
